@@ -62,6 +62,38 @@ def run(rep, idx, tier):
         member_table(rep, idx, sig, table)
         if ispec is not None:
             parameters(rep, idx, P, sig, idx.find_class(ispec))
+    signature_census(rep, idx)
+
+
+def signature_census(rep, idx):
+    """Every wiring.Signature subclass of the package, not just the tabled ones: a class that overrides create() returns an
+    interface that builds its *own* signature object, so `sig.create().signature == sig` holds only if the class also
+    defines a value-based __eq__ (the base class compares subclass instances by identity)."""
+    def is_signature(cls, depth=0):
+        if depth > 4:
+            return False
+        for b in cls.bases:
+            if b.split(".")[-1] == "Signature" and b != cls.name:
+                return True
+        return any(is_signature(b, depth + 1) for b in idx.bases_of(cls))
+    tabled = {idx.find_class(s).site for s in SIG_SPECS}
+    n = 0
+    for cls in idx.all_classes():
+        if not is_signature(cls):
+            continue
+        n += 1
+        cr, eq = cls.method("create"), cls.method("__eq__")
+        if cr is not None and eq is None and not any(b.method("__eq__") is not None for b in idx.bases_of(cls)):
+            rep.bad("C20.4", cls.site, f"{cls.qual}: create() round-trips",
+                    "create() is overridden but __eq__ is not: the interface it returns carries a signature object of its own, which the "
+                    "inherited identity comparison never finds equal to the original", line=cr.node.lineno)
+        elif cr is not None and cls.site not in tabled:
+            rep.unk("C20.4", cls.site, f"{cls.qual}: create() / __eq__ agree on the defining parameters",
+                    "a signature class with its own create() that is not in the role table: its parameter round-trip is not verified")
+        else:
+            rep.ok("C20.4", cls.site, f"{cls.qual}: create() round-trips",
+                   "tabled class (verified above)" if cls.site in tabled else "inherits create() and equality from wiring.Signature", nontrivial=False)
+    rep.ok("C20.4", "-", "all signature classes of the package were enumerated", f"{n} class(es)", nontrivial=False)
 
 
 def sign(p):
